@@ -2,7 +2,9 @@ NOT_YET = ("no solver-based obligation for this property is registered at this c
            "planned encoding); not claimed")
 NOT_APPLICABLE = {
     "C13": "quantifies over thread/process interleavings; neither CrossHair nor the AST interpreter executes Python "
-           "threads or multiprocessing symbolically, and a sequential stub would decide one schedule only (DESIGN §4 C13)",
+           "threads or multiprocessing symbolically, and a sequential stub would decide one schedule only (DESIGN §4 C13); two "
+           "defects in its neighbourhood that need no schedule are decided elsewhere: errors of worker processes lost (C04.3 mp, F36) "
+           "and progress events of worker processes lost (C18 events_parallel, open finding K08)",
 }
 ENGINES = [
     {"name": "pysym", "path": "vf/pysym", "serves_properties": ["C17", "C07", "C06", "C09", "C10", "C12", "C04", "C18", "C08", "C15", "C01", "C14", "C16", "C03", "C19", "C02", "C05", "C11", "C20"],
@@ -178,7 +180,9 @@ CHECKS = {
                      "payloads of a delivered member sum to its size; reporter() dispatches every item kind to the right "
                      "callback in order, survives empty-queue timeouts, stops at the sentinel; close() posts the sentinel and "
                      "joins; over call sequences with callbacks in one session a reporter thread is started only when no earlier "
-                     "one still listens to the queue. Interleavings of worker and reporter threads, blocking callbacks and 'none after close()' are NOT "
+                     "one still listens to the queue; in the parallel branch (worker threads, and worker processes under a stand-in "
+                     "that works on copies of its arguments) every member's start and end event reaches the session's queue "
+                     "(open finding K08 for processes). Interleavings of worker and reporter threads, blocking callbacks and 'none after close()' are NOT "
                      "decided (no scheduler in this technique).",
                 note=RD_NOTE + "; threading.Thread is a stub; schedules are outside"),
     "C04": dict(engine=B, ref="DESIGN.md §3 (C04)",
